@@ -44,6 +44,27 @@ def main():
         for k in ("note", "notes", "detected_on", "strengthened"):
             if k in old:
                 meta[k] = old[k]
+        ab = d / "at_base.json"
+        if ab.exists():
+            # the patch no longer applies to /repo HEAD: detection judged on the newest commit it applies to, by the
+            # obligations that are reported with the patch but not without it (tools/diff_at_base.py)
+            a = json.loads(ab.read_text())
+            chk = a["checks"].get(conf["property"], {})
+            meta["confirmed_by_me"] = bool(old.get("confirmed_by_me", meta["confirmed_by_me"]))
+            for k in ("suite_with_change", "demo_exit_with_change", "demo_exit_without_change",
+                      "repo_head_when_confirmed"):
+                if k in old and not conf["applies_to_repo_head"]:
+                    meta[k] = old[k]
+            meta["rechecked_at_base"] = {"base_commit": a["base_commit"], "repo_head": a["head"],
+                                         "new_violations": chk.get("new_violations", []),
+                                         "new_undecided": chk.get("new_undecided", [])}
+            meta["check_detects"] = bool(chk.get("new_violations"))
+            meta["check_exit_on_changed_tree"] = chk.get("with_patch", {}).get("exit")
+            meta["check_lines"] = [f"VIOLATION property={conf['property']} obligation={o} (new with the patch at "
+                                   f"{a['base_commit']})" for o in chk.get("new_violations", [])[:8]]
+            meta["what_i_ran"] = meta["what_i_ran"] + [
+                f"tools/diff_at_base.py seeded/{d.name}  (patch no longer applies to HEAD {a['head']}: check on "
+                f"{a['base_commit']} without and with the patch, new obligations only)"]
         (d / "meta.json").write_text(json.dumps(meta, indent=1) + "\n")
         print(d.name, "confirmed" if meta["confirmed_by_me"] else "NOT-CONFIRMED",
               "detected" if meta["check_detects"] else "missed")
